@@ -659,12 +659,9 @@ Section StreamInv.
     destruct (w <? 1)%Z eqn:E; [apply Z.ltb_lt in E; lia|].
     eexists. split; [reflexivity|].
     unfold Inv, abs0. cbn [ms_w ms_ref ms_mmd ms_n ms_q a_ref a_since].
-    repeat split; try reflexivity.
-    - discriminate.
-    - discriminate.
-    - rewrite lastn_nil. apply cq_init_rel. exact Hw.
-    - exists []. reflexivity.
-    - constructor.
+    split; [reflexivity|]. split; [reflexivity|]. split; [intros R E'; discriminate|].
+    split; [reflexivity|]. split; [rewrite lastn_nil; apply cq_init_rel; exact Hw|].
+    split; [exists []; reflexivity | constructor].
   Qed.
 
   (** shape of an accepted update *)
@@ -685,32 +682,26 @@ Section StreamInv.
     intros s a all e (Hww & Hr & Hf & Hn & Hq & (pre & Hpre) & Hall) He.
     destruct e as [X| |v]; cbn [ms_step abs_step all_step ev_good] in *.
     - rewrite (ms_fit_good s X He). cbn [fst]. unfold Inv. cbn [ms_w ms_ref ms_mmd ms_n ms_q a_ref a_since].
-      repeat split; try assumption.
-      + intros R E. inversion E; subst R. exact He.
-      + intros R E. inversion E; subst R. reflexivity.
-      + exists pre. exact Hpre.
+      split; [exact Hww|]. split; [reflexivity|].
+      split; [intros R E; inversion E; subst R; split; [exact He | reflexivity]|].
+      split; [exact Hn|]. split; [exact Hq|]. split; [exists pre; exact Hpre | exact Hall].
     - unfold Inv, ms_reset. cbn [fst ms_w ms_ref ms_mmd ms_n ms_q a_ref a_since].
-      repeat split; try assumption; try discriminate.
-      exists all. symmetry. apply app_nil_r.
-    - destruct (a_ref a) as [R|] eqn:Ea.
+      split; [exact Hww|]. split; [reflexivity|]. split; [intros R E; discriminate|].
+      split; [reflexivity|]. split; [exact Hq|].
+      split; [exists all; symmetry; apply app_nil_r | exact Hall].
+    - destruct (a_ref a) as [R|] eqn:Ea; try rewrite Ea in Hr.
       + destruct (cq_enqueue_rel w (ms_q s) _ v Hw Hq) as (q' & Heq & Hq').
-        rewrite (ms_update_fitted s v R q' _ (eq_trans Hr eq_refl) Heq). cbn [fst].
+        rewrite (ms_update_fitted s v R q' _ Hr Heq). cbn [fst].
         unfold Inv. cbn [ms_w ms_ref ms_mmd ms_n ms_q a_ref a_since].
-        repeat split; try assumption.
-        * apply (Hf R0). assumption.
-        * apply (Hf R0). assumption.
-        * rewrite Hn. unfold zlen. rewrite app_length. cbn [length]. lia.
-        * destruct Hq' as [Hi _]. exact (proj1 Hi).
-        * destruct Hq' as [Hi _]. exact (proj2 Hi).
-        * destruct Hq' as [_ [Hm _]]. exact Hm.
-        * destruct Hq' as [_ [_ Hab]]. rewrite Hab, enqueue_lastn by exact Hw. reflexivity.
-        * exists pre. rewrite Hpre, app_assoc. reflexivity.
-        * apply Forall_app. split; [exact Hall | constructor; [exact He | constructor]].
+        split; [exact Hww|]. split; [exact Hr|]. split; [exact Hf|].
+        split; [rewrite Hn; unfold zlen; rewrite app_length; cbn [length]; lia|].
+        split; [rewrite enqueue_lastn in Hq' by exact Hw; exact Hq'|].
+        split; [exists pre; rewrite Hpre, app_assoc; reflexivity|].
+        apply Forall_app. split; [exact Hall | constructor; [exact He | constructor]].
       + unfold ms_update. rewrite Hr. cbn [fst].
-        unfold Inv. rewrite Ea. repeat split; try assumption.
-        * intros R E; discriminate.
-        * intros R E; discriminate.
-        * exists pre. exact Hpre.
+        unfold Inv. rewrite Ea.
+        split; [exact Hww|]. split; [exact Hr|]. split; [intros R E; discriminate|].
+        split; [exact Hn|]. split; [exact Hq|]. split; [exists pre; exact Hpre | exact Hall].
   Qed.
 
   (** the array handed to the batch detector once [window_size] values have arrived since
@@ -793,10 +784,10 @@ Section StreamR.
     destruct e as [X| |v]; cbn [ms_step spec_out ev_good] in *.
     - rewrite (ms_fit_good k chunk Hchunk sh s X He). reflexivity.
     - reflexivity.
-    - destruct (a_ref a) as [R|] eqn:Ea.
+    - destruct (a_ref a) as [R|] eqn:Ea; try rewrite Ea in Hr.
       + destruct (cq_enqueue_rel w (ms_q s) _ v Hw1 Hq) as (q' & Heq & Hq').
         cbn [abs_step all_step] in HI'. rewrite Ea in HI'.
-        rewrite (ms_update_fitted k chunk s v R q' _ (eq_trans Hr eq_refl) Heq) in *.
+        rewrite (ms_update_fitted k chunk s v R q' _ Hr Heq) in *.
         cbn [fst snd] in *. f_equal.
         assert (Hz : zlen (a_since a ++ [v]) = (ms_n s + 1)%Z).
         { rewrite Hn. unfold zlen. rewrite app_length. cbn [length]. lia. }
@@ -810,9 +801,9 @@ Section StreamR.
         rewrite Hm. unfold mb_compare. cbn [mb_ref mb_exp fitted]. rewrite Hcd. cbn [bind].
         assert (Hlen_ar : (2 <= arr_len ar)%Z).
         { unfold arr_len, zlen. rewrite (Permutation_length E3), map_length, lastn_length, app_length.
-          rewrite Hz in *. unfold zlen in Hn. cbn [length]. lia. }
+          unfold zlen in Hn. cbn [length]. lia. }
         rewrite (mmd_py_key_R k k_diag chunk R ar Hchunk Hss (arr_good_len sh R HR) Hlen_ar).
-        cbn [bind]. do 2 f_equal. apply mmd_u_perm_r. exact E3.
+        cbn [bind]. rewrite (mmd_u_perm_r k [] _ _ _ E3). reflexivity.
       + unfold ms_update. rewrite Hr. reflexivity.
   Qed.
 
@@ -850,7 +841,7 @@ Section StreamR.
     cbn [map spec_run spec_out a_ref a_since abs_step length seq].
     f_equal.
     - unfold out_at. cbn [firstn]. destruct (zlen (since ++ [v]) <? w)%Z; reflexivity.
-    - rewrite IH. rewrite <- seq_shift, map_map. apply map_ext. intros t.
+    - rewrite IH. rewrite <- (seq_shift (length r) 1), map_map. apply map_ext. intros t.
       cbn [firstn]. rewrite <- app_assoc. reflexivity.
   Qed.
 
@@ -869,3 +860,36 @@ Section StreamR.
     apply (spec_run_updates R vs []).
   Qed.
 End StreamR.
+
+(** * 9. The batch detector end to end over R *)
+Section BatchTop.
+  Notation ptR := (pt RealA).
+  Variable k : ptR -> ptR -> R.
+  Hypothesis k_diag : forall x, k x x = 1.
+
+  Lemma same_shape_compare_dims : forall X Y : arr RealA, same_shape X Y -> check_compare_dims X Y = Ok tt.
+  Proof.
+    intros [xs|d xr] [ys|d' yr] H; cbn [same_shape check_compare_dims] in *; try contradiction; [reflexivity|].
+    subst d'. rewrite Z.eqb_refl. reflexivity.
+  Qed.
+
+  (** For every accepted chunk_size (None or > 0), every prior detector state, every reference
+      X (n >= 2 points; 2-D with at least one column, or 1-D) and every test sample Y of the
+      same shape (m >= 2): [fit] succeeds, [compare] returns the unbiased estimate, and so does
+      the stand-alone statistic. *)
+  Theorem mmd_any_chunking : forall chunk s (X Y : arr RealA),
+    chunk_ok chunk -> check_fit_dims X = Ok tt -> same_shape X Y ->
+    (2 <= arr_len X)%Z -> (2 <= arr_len Y)%Z ->
+    exists s', mb_fit k chunk s X = (s', Ok tt) /\
+      mb_compare k chunk s' Y = Ok (mmd_u k [] (expand_dims X) (expand_dims Y)) /\
+      mb_statistic k chunk X Y = Ok (mmd_u k [] (expand_dims X) (expand_dims Y)).
+  Proof.
+    intros chunk s X Y Hc Hfd Hs Hn Hm.
+    pose proof (chunk_or_pos chunk _ Hc Hn) as Hcx.
+    eexists. split; [|split].
+    - unfold mb_fit. rewrite Hfd. fold (arr_len X). rewrite (get_chunks_pos _ _ Hcx). reflexivity.
+    - unfold mb_compare. cbn [mb_ref mb_exp]. rewrite (same_shape_compare_dims X Y Hs). cbn [bind].
+      apply (mmd_py_key_R k k_diag chunk X Y Hc Hs Hn Hm).
+    - apply (mmd_py_nokey_R k k_diag chunk X Y Hc Hs Hn Hm).
+  Qed.
+End BatchTop.
